@@ -145,6 +145,11 @@ type Agent struct {
 	gatherCandidateDone   chan struct{}
 	gatherCycles          sync.WaitGroup // every gathering cycle, including superseded ones
 
+	// restarts counts the Restart calls that have taken effect. AddRemoteCandidate adds its
+	// candidate from a goroutine of its own; a candidate handed over before a Restart must
+	// not land in the session that the Restart began.
+	restarts atomic.Uint64
+
 	connectionStateNotifier       *handlerNotifier
 	candidateNotifier             *handlerNotifier
 	selectedCandidatePairNotifier *handlerNotifier
@@ -1012,13 +1017,19 @@ func (a *Agent) AddRemoteCandidate(cand Candidate) error {
 			return ErrAddressParseFailed
 		}
 
-		go a.resolveAndAddMulticastCandidate(hostCandidate)
+		go a.resolveAndAddMulticastCandidate(hostCandidate, a.restarts.Load())
 
 		return nil
 	}
 
+	restarts := a.restarts.Load()
 	go func() {
 		if err := a.loop.Run(a.loop, func(_ context.Context) {
+			if a.restarts.Load() != restarts {
+				a.log.Infof("Ignoring remote candidate of the session ended by Restart: %s", cand)
+
+				return
+			}
 			// nolint: contextcheck
 			a.addRemoteCandidate(cand)
 		}); err != nil {
@@ -1031,7 +1042,7 @@ func (a *Agent) AddRemoteCandidate(cand Candidate) error {
 	return nil
 }
 
-func (a *Agent) resolveAndAddMulticastCandidate(cand *CandidateHost) {
+func (a *Agent) resolveAndAddMulticastCandidate(cand *CandidateHost, restarts uint64) {
 	if a.mDNSConn == nil {
 		return
 	}
@@ -1053,6 +1064,9 @@ func (a *Agent) resolveAndAddMulticastCandidate(cand *CandidateHost) {
 	}
 
 	if err = a.loop.Run(a.loop, func(_ context.Context) {
+		if a.restarts.Load() != restarts {
+			return
+		}
 		// nolint: contextcheck
 		a.addRemoteCandidate(cand)
 	}); err != nil {
@@ -1994,6 +2008,7 @@ func (a *Agent) Restart(ufrag, pwd string) error { //nolint:cyclop
 		a.gatherCandidateCancel()
 
 		// Clear all agent needed to take back to fresh state
+		a.restarts.Add(1)
 		a.removeUfragFromMux()
 		a.localUfrag = ufrag
 		a.localPwd = pwd
